@@ -4,11 +4,13 @@
 # package so that `import clvm_rs` works with PYTHONPATH=/verif/target/pywheel.
 set -e
 export CARGO_NET_OFFLINE=true
-OUT=/verif/target/pywheel
-cd /repo
-CARGO_TARGET_DIR=/verif/target/wheel cargo build --offline --release -p clvm_rs
+V="${VERIF_DIR:-/verif}"
+R="${VERIF_REPO:-/repo}"
+OUT="$V/target/pywheel"
+cd "$R"
+CARGO_TARGET_DIR="$V/target/wheel" cargo build --offline --release -p clvm_rs
 mkdir -p "$OUT"
 rm -rf "$OUT/clvm_rs"
-cp -r /repo/wheel/python/clvm_rs "$OUT/clvm_rs"
-cp /verif/target/wheel/release/libclvm_rs.so "$OUT/clvm_rs/clvm_rs.abi3.so"
+cp -r "$R/wheel/python/clvm_rs" "$OUT/clvm_rs"
+cp "$V/target/wheel/release/libclvm_rs.so" "$OUT/clvm_rs/clvm_rs.abi3.so"
 PYTHONPATH="$OUT" python3 -c "import clvm_rs.clvm_rs as m; assert hasattr(m, 'clvm_tree_to_lazy_node'); print('wheel ok')"
